@@ -49,7 +49,10 @@ func optional(q map[string]string, key string) {
 // request builds an arbitrary request for the route: path parameters, query values (present or
 // absent) and a body of the bound type (or an unbindable one). Routes this table does not know
 // (added later) still get arbitrary path parameters and an unbindable body.
-func request(method, path string) vhgin.Req {
+func request(method, path string) vhgin.Req { return Request(method, path) }
+
+// Request is request, exported for the harnesses of other properties.
+func Request(method, path string) vhgin.Req {
 	req := vhgin.Req{Params: map[string]string{}, Query: map[string]string{}, Headers: map[string]string{}}
 	for _, seg := range strings.Split(path, "/") {
 		if strings.HasPrefix(seg, ":") || strings.HasPrefix(seg, "*") {
